@@ -576,7 +576,7 @@ func loadAssoc(r *core.Rand) assocData {
 }
 
 var assocPaths = []string{"PreloadItems", "PreloadItemsCond", "PreloadNested", "PreloadAll", "PreloadPet", "PreloadTags", "JoinsBoss", "InnerJoinsBoss", "JoinsPet",
-	"AssocFindItems", "AssocCountItems", "AssocFindTags", "AssocCountTags", "AssocFindPet", "PreloadUnscoped", "UnscopedJoinsBoss", "UnscopedInnerJoinsBoss", "UnscopedJoinsPet"}
+	"AssocFindItems", "AssocCountItems", "AssocFindTags", "AssocCountTags", "AssocFindPet", "PreloadUnscoped", "UnscopedJoinsBoss", "UnscopedInnerJoinsBoss", "UnscopedJoinsPet", "JoinsPetCond", "JoinsBossCond"}
 
 func itemIDs(xs []SItem) []int64 {
 	out := make([]int64, len(xs))
@@ -748,6 +748,87 @@ func runAssoc(c *core.Ctx, path string, d assocData) (problems []string) {
 				add("Unscoped: owner %d has %d pet rows but none was joined", o.ID, has)
 			}
 		}
+	case "JoinsPetCond", "JoinsBossCond":
+		// association join with the caller's own ON conditions given as a handle: every unit is true for
+		// every row of the joined table (v >= 1 in all of them, v = 1 in every pet), so the result must equal the plain join's
+		// whatever mix of Where / Or / Not the handle carries
+		col, rel := "v", "Pet"
+		if path == "JoinsBossCond" {
+			col, rel = "Boss.v", "Boss"
+		}
+		cond := H.DB.Session(&gorm.Session{})
+		n := 1 + c.R.Intn(3)
+		desc := ""
+		for i := 0; i < n; i++ {
+			k := c.R.Intn(8)
+			if rel == "Boss" && (k == 2 || k == 5) {
+				k-- // map keys are not qualified by gorm and "v" alone is ambiguous next to s_items.v: raw form instead
+				if k == 4 {
+					k = 3
+				}
+			}
+			switch k {
+			case 0:
+				cond = cond.Where(col+" > ?", 0)
+				desc += "W>"
+			case 1:
+				cond = cond.Where(col+" > ? OR "+col+" < ?", 0, 0)
+				desc += "Wor"
+			case 2:
+				cond = cond.Where(map[string]interface{}{"v": 1})
+				desc += "Wmap"
+			case 3, 4:
+				cond = cond.Or(col+" > ?", 0)
+				desc += "O>"
+			case 5:
+				cond = cond.Or(map[string]interface{}{"v": 1})
+				desc += "Omap"
+			case 6:
+				cond = cond.Not(col+" = ?", 0)
+				desc += "N="
+			case 7:
+				cond = cond.Where(clause.Gt{Column: clause.Column{Table: rel, Name: "v"}, Value: 0})
+				desc += "Wgt"
+			}
+			desc += ","
+		}
+		c.Shape(path + ":" + desc)
+		if path == "JoinsPetCond" {
+			if err := root.Joins("Pet", cond).Order("owners.id").Find(&owners).Error; err != nil {
+				add("Joins(Pet, %s) error: %v", desc, err)
+				return
+			}
+			if len(owners) != d.owners {
+				add("Joins(Pet, %s): owners loaded %d want %d (a soft-deleted pet multiplied or removed a parent)", desc, len(owners), d.owners)
+			}
+			for _, o := range owners {
+				got := int64(0)
+				if o.Pet != nil {
+					got = o.Pet.ID
+				}
+				if got != d.livePet[o.ID] {
+					add("Joins(Pet, %s): owner %d joined Pet id %d, live pet is %d", desc, o.ID, got, d.livePet[o.ID])
+				}
+			}
+		} else {
+			var items []SItem
+			if err := root.Joins("Boss", cond).Order("s_items.id").Find(&items).Error; err != nil {
+				add("Joins(Boss, %s) error: %v", desc, err)
+				return
+			}
+			for _, it := range items {
+				if it.ID >= twinOff {
+					add("soft-deleted item %d returned by Joins(Boss, %s)", it.ID, desc)
+				}
+				got := int64(0)
+				if it.Boss != nil {
+					got = it.Boss.ID
+				}
+				if got != d.liveBoss[it.ID] {
+					add("Joins(Boss, %s): item %d joined Boss id %d, live boss is %d", desc, it.ID, got, d.liveBoss[it.ID])
+				}
+			}
+		}
 	case "JoinsPet":
 		if err := root.Joins("Pet").Order("owners.id").Find(&owners).Error; err != nil {
 			add("error: %v", err)
@@ -875,7 +956,7 @@ var Engine = &core.Engine{
 	ID:    "C08",
 	Level: "exploration",
 	Rule: "twin tables: random live rows (0..8) each with a soft-deleted twin of identical user columns; chains of 0..3 Where/Not/Or units (C02 generator, id-free, leading Or included, hostile renderings in 2 of 3 cases) x 20 read/write paths (Find, inline, First/Last/Take, Count, Pluck, Scan, Rows, FindInBatches, Count-then-Find / Count-then-Pluck on one query value, Update(s), UpdateColumn, Delete + repeated Delete, Unscoped Find/Count/Update/Delete), " +
-		"plus 18 association paths (Preload plain/cond/nested/all/has-one/many2many/unscoped, Joins/InnerJoins belongs-to, Joins has-one, the same joins under Unscoped, Association Find/Count) over random owner graphs whose children all have soft-deleted twins; distinct = (op:form per unit, path) resp. (path, graph sizes); non-trivial = the chain matches at least one live row (so it also matches a twin)",
+		"plus 20 association paths (Joins with a handle of always-true ON conditions mixing Where/Or/Not forms; Preload plain/cond/nested/all/has-one/many2many/unscoped, Joins/InnerJoins belongs-to, Joins has-one, the same joins under Unscoped, Association Find/Count) over random owner graphs whose children all have soft-deleted twins; distinct = (op:form per unit, path) resp. (path, graph sizes); non-trivial = the chain matches at least one live row (so it also matches a twin)",
 	Assumptions: []string{
 		"conditions never mention the primary key, so a twin matches exactly when its live row does",
 		"FindInBatches runs whose cursor does not advance are cut by a logical batch bound and only checked for twin ids (non-termination is C15's subject)",
